@@ -12,6 +12,7 @@ import (
 	"verif/harness/adjdrv"
 	"verif/harness/convdrv"
 	"verif/harness/injdrv"
+	"verif/harness/launchdrv"
 	"verif/harness/isolate"
 	"verif/harness/muxdrv"
 	"verif/harness/ocidrv"
@@ -201,6 +202,15 @@ func main() {
 		bin := fs.String("bindir", "", "directory with the built sample plugin binaries")
 		fs.Parse(args)
 		if err := injdrv.Run(*in, *out, *bin); err != nil {
+			fail(err)
+		}
+	case "launch":
+		fs := flag.NewFlagSet(mod, flag.ExitOnError)
+		in := fs.String("in", "", "scenarios")
+		out := fs.String("out", "", "trace file")
+		probe := fs.String("probe", "", "the built probe plugin binary")
+		fs.Parse(args)
+		if err := launchdrv.Run(*in, *out, *probe); err != nil {
 			fail(err)
 		}
 	default:
